@@ -179,10 +179,15 @@ def ansSeg (ts : List String) : String :=
     match surfBuild zs with
     | none => "nofilter"
     | some entries =>
+      let flats := entries.map fun p => (p.1, flatten p.2)
       let outs := ps.map fun (ge, incl, lit) =>
         match surfPrune entries ge incl lit with
         | none => "none"
-        | some z => idList z
+        | some z =>
+          let viaFlat := match encodeValue lit with
+            | some b => (flats.filter fun e => if ge then e.2.mayOverlapGe b incl else e.2.mayOverlapLe b incl).map (·.1)
+            | none => []
+          (if viaFlat == z then "" else "TIE-BROKEN:") ++ idList viaFlat
       s!"zones={idList (entries.map (·.1))} " ++ (if outs.isEmpty then "-" else " ".intercalate outs)
 
 def op? (s : String) : Option Op :=
